@@ -603,7 +603,7 @@ func (g *gen) arrExpr(d int, elem ty) string {
 		if elem == tInt || elem == tAny {
 			g.feat("range")
 			a := g.n(6)
-			return g.paren(fmt.Sprintf("%d:%d", a-2, a+g.n(12)))
+			return fmt.Sprintf("(%d:%d)", a-2, a+g.n(12)) // always parenthesised: `1:5 + 4294967296` is 1:(5+4294967296)
 		}
 		return g.arrLit(d, elem)
 	case k < 90:
